@@ -14,8 +14,9 @@ def rest(P, rep):
     from .lib_c18d import r189
     from .lib_c18f import r1810, r1811
     from .lib_c18g import r1812, r182_computed
+    from .lib_c18h import r186_directive_end
     return (('R18.10', r1810, (P, rep)), ('R18.11', r1811, (P, rep)), ('R18.12', r1812, (P, rep)), ('R18.2', r182_computed, (P, rep)), ('R18.8', r188, (P, rep)), ('R18.9', r189, (P, rep)), ('R18.4', r184, (P, rep)), ('R18.5', r185, (P, rep)),
-            ('R18.6', r186_handlers, (P, pu, rep)), ('R18.6', r186_line_marker, (P, pu, rep)), ('R18.6', r186_origin, (P, pu, rep)),
+            ('R18.6', r186_handlers, (P, pu, rep)), ('R18.6', r186_line_marker, (P, pu, rep)), ('R18.6', r186_directive_end, (P, pu, rep)), ('R18.6', r186_origin, (P, pu, rep)),
             ('R18.7', r187, (P, rep)))
 
 
